@@ -583,7 +583,7 @@ class t2listing(object):
             # number of additional element tables passed so far:
             tables = [t for t in ['element', 'element1', 'connection',
                                   'primary', 'element2', 'generation']
-                      if t in self._table]
+                      if t in self._table or t in self.skip_tables]
             nelt_tables = len([t for t in tables[:tables.index(tname) + 1]
                                if t.startswith('element')]) - 1
         while tname != tablename:
